@@ -9,8 +9,16 @@ def check(ctx, env):
         "mechanism's recv_message, which is reached only for the verdict Discarded (R17.1); the mechanisms' "
         "recv_message are explored path-sensitively (wire attributes as a loop fixpoint over attribute kinds, MAC "
         "verification as an atom): on every path returning Err(Discarded) the writes to mechanism state are within "
-        "{violated-transaction marker insert for a non-indication on unreliable transport} (R17.2).")
+        "{violated-transaction marker insert for a non-indication on unreliable transport} (R17.2); a finished transaction "
+        "is removed from the table on every path that reports a final outcome, and responses without a table entry are "
+        "discarded before any effect (R17.3 = R5.1 + R5.2).")
     ctx.assumptions = ["rustc MIR", "callee models of analysis/models.py", "HashSet insert/remove logged, not stepped into"]
     prog = env.prog("agent")
     R.r17_1_reject(ctx, prog)
     M.r17_2_mechanisms(ctx, prog)
+    # "a response for a finished transaction is rejected" presupposes that finishing removes the transaction from the
+    # table on every path that reports a final outcome (same rules as C05 R5.1 / R5.2)
+    R.r5_1_guard(ctx, prog, rule="R17.3")
+    R.r5_2_timeout(ctx, prog, rule="R17.3")
+    R.r5_2_recv_final(ctx, prog, rule="R17.3")
+    R.r5_2_finished(ctx, prog, rule="R17.3")
